@@ -22,6 +22,13 @@ type Client struct {
 	Gone     bool // the simulator ended this connection
 	RawIn    []byte // every byte received (when KeepRaw)
 	KeepRaw  bool
+	Pipe     Pipe // when set, used instead of Conn (e.g. a WebSocket client)
+}
+
+// Pipe is any byte transport the simulator can write to and drain.
+type Pipe interface {
+	Write([]byte) (int, error)
+	Drain() []byte
 }
 
 // New wraps the client end of a simulated connection.
@@ -49,7 +56,16 @@ func Encode(p packets.ControlPacket) []byte {
 }
 
 // Send writes a whole packet.
-func (c *Client) Send(p packets.ControlPacket) { c.Conn.Write(Encode(p)) }
+func (c *Client) Send(p packets.ControlPacket) { c.Write(Encode(p)) }
+
+// Write sends raw bytes.
+func (c *Client) Write(b []byte) {
+	if c.Pipe != nil {
+		c.Pipe.Write(b)
+		return
+	}
+	c.Conn.Write(b)
+}
 
 // Connect builds a CONNECT packet.
 func Connect(clientID, username string, will *Will) *packets.ConnectPacket {
@@ -118,7 +134,12 @@ func Disconnect() packets.ControlPacket { return packets.NewControlPacket(packet
 // Recv drains the socket and returns every complete packet; a partial packet
 // stays buffered. An undecodable stream is returned as an error.
 func (c *Client) Recv() ([]packets.ControlPacket, error) {
-	b := c.Conn.Drain()
+	var b []byte
+	if c.Pipe != nil {
+		b = c.Pipe.Drain()
+	} else {
+		b = c.Conn.Drain()
+	}
 	if c.KeepRaw {
 		c.RawIn = append(c.RawIn, b...)
 	}
